@@ -307,7 +307,27 @@ def r7_stale_handle(rule, root=None):
         if not cached:
             rule.ok("%s::zoom: translate handles hold no cached matrix" % ty)
         elif "self.drag_start" in t:
-            rule.ok("%s::zoom refreshes the stored pan handle after changing the scale" % ty, file=GUI, line=fn["ln"])
+            # ... the *stored* handle: the rebase must reach self.drag_start through a mutable borrow; the
+            # handle types are Copy, so a by-value binding rebases a temporary and compiles without a warning
+            calls = [c for c in A.find(fn["body"], "MethodCall") if c["method"] == "rebase_translate" and c["args"]]
+            in_place = False
+            for c in calls:
+                h = A.strip(c["args"][0])
+                while h.get("k") in ("Ref", "Paren"):
+                    h = A.strip(h["e"])
+                hname = A.ident(h)
+                for pat, scr in A.enclosing_patterns(fn["body"], c) or []:
+                    names = {n_["name"]: n_ for n_ in A.walk(pat) if n_.get("k") == "PIdent"}
+                    if hname in names:
+                        st_ = A.unparse(scr).replace(" ", "")
+                        by_ref = st_.startswith("&mutself.drag_start") or st_ in ("self.drag_start.as_mut()",) or bool(names[hname].get("ref") and names[hname].get("mut"))
+                        in_place = in_place or by_ref
+            if calls and in_place:
+                rule.ok("%s::zoom refreshes the stored pan handle after changing the scale" % ty, file=GUI, line=fn["ln"])
+            elif calls:
+                rule.bad("%s|zoom|rebases-a-copy" % ty, "%s::zoom rebases a handle bound by value from `self.drag_start`: the handle is Copy, so the stored one keeps the pre-zoom matrix and the grabbed point slides away on the next drag step" % ty, A.where(fn, calls[0]))
+            else:
+                rule.ok("%s::zoom refreshes the stored pan handle after changing the scale" % ty, file=GUI, line=fn["ln"])
         else:
             rule.bad("%s|zoom|stale-handle" % ty, "%s::zoom changes the view's scale but leaves a stored pan handle untouched; the handle caches the pre-zoom matrix (TranslateHandle.%s), so the next drag step no longer keeps the grabbed point under the cursor" % (ty, cached[0]), A.where(fn))
 
